@@ -537,6 +537,13 @@ class RunResult:
 
 
 def label_mesh(world: seams.World, mesh, names: List[str]) -> None:
+    try:
+        _label_mesh(world, mesh, names)
+    except AttributeError:
+        pass  # labels only make schedules readable; unlabelled sets fall back to ordinals
+
+
+def _label_mesh(world: seams.World, mesh, names: List[str]) -> None:
     for i, block in enumerate(mesh.blocks):
         nme = names[i] if i < len(names) else f"blk{i}"
         for axis in block.axes:
@@ -564,8 +571,10 @@ def run_once(program: Dict[str, Any], sched: Dict[str, Any], pre_files: Optional
     res.budget = 8 * n_blocks * n_blocks + 16
     probes = {"copy_axis_calls": 0, "multi_candidates": 0, "chopless_defined_nb": 0, "chopless_first": 0, "copied": 0}
 
-    orig_block_copy = Block.copy_grading
-    orig_axis_copy = Axis.copy_grading
+    # observation probes: if a refactoring renames these methods the probes are simply not
+    # installed (reach counters stay 0; a livelock is then caught by the watchdog only)
+    orig_block_copy = getattr(Block, "copy_grading", None)
+    orig_axis_copy = getattr(Axis, "copy_grading", None)
 
     def block_copy(self):
         res.copy_calls += 1
@@ -591,7 +600,11 @@ def run_once(program: Dict[str, Any], sched: Dict[str, Any], pre_files: Optional
             probes["copied"] += 1
         return r
 
-    undo = [seams.patch_attr(Block, "copy_grading", block_copy), seams.patch_attr(Axis, "copy_grading", axis_copy)]
+    undo = []
+    if orig_block_copy is not None:
+        undo.append(seams.patch_attr(Block, "copy_grading", block_copy))
+    if orig_axis_copy is not None:
+        undo.append(seams.patch_attr(Axis, "copy_grading", axis_copy))
     it = Interp(program)
 
     def before(i, op):
